@@ -7,25 +7,25 @@ CONSTANTS
   DECI <- c_DECI
   PRICE <- c_PRICE
   PDEC <- c_PDEC
-  REGISTERED = {"lst"}
+  NSTDELTAS <- c_NSTDELTAS
+  REGISTERED = {"lst","nst"}
   PREC = 100
   UNBOND = 1
   HOLDOPS = {"o1"}
-  AMOUNTS = {1,2,3}
+  AMOUNTS = {1,2}
   NONCES = {1,2}
+  TXHS = {"t1"}
+  MAXH = 3
+  MAXOPS = 6
+  FACTORS = {50,100}
+  POWERS = {1}
+  SLASHIDS = {"i1"}
+  GENBAL = 0
   FRESH = TRUE
   PREFUND = 0
   PREDEL = 0
   EVENTS = {"Deposit","Withdraw","Delegate","Undelegate","Associate","Dissociate","Slash","NstUpdate","ReleaseHold","EndBlock"}
   FAILBUDGET = 99
-  TXHS = {"t1"}
-  MAXH = 3
-  MAXOPS = 7
-  FACTORS = {50}
-  POWERS = {1}
-  SLASHIDS = {"i1"}
-  NSTDELTAS = {}
-  GENBAL = 0
 VIEW View
 INVARIANTS InvConservation InvPublished InvEscrow InvNonNeg InvShareSum InvSelfShare InvListExact InvEmptyPool InvPendingSums InvIndex
 CHECK_DEADLOCK FALSE
